@@ -450,11 +450,42 @@ theorem tryConnect_ar (cfg : Cfg S α) (useStart : Bool) (st : St S α) (id : Na
           (isPathValid cfg (!useStart) co
             (isPathValid cfg useStart st.ar.size (addMotion cfg st (mkConnect cm existing id useStart))).2).2.ar) := by
   unfold tryConnect
-  repeat' split
-  all_goals first
-    | exact Or.inl rfl
-    | exact Or.inr ⟨_, _, by assumption, Or.inl rfl⟩
-    | exact Or.inr ⟨_, _, by assumption, Or.inr rfl⟩
+  cases h1 : lookup (st.disc (!useStart)).cdata (cfg.coord x) with
+  | none => exact Or.inl rfl
+  | some ocd =>
+    try simp only []
+    by_cases h2 : ocd.motions.isEmpty = true
+    · rw [if_pos h2]; exact Or.inl rfl
+    · rw [if_neg h2]
+      try simp only []
+      cases h3 : ocd.motions[dr.connPick ocd.motions.length]? with
+      | none => exact Or.inl rfl
+      | some co =>
+        try simp only []
+        cases h4 : st.ar[co]? with
+        | none => exact Or.inl rfl
+        | some cm =>
+          try simp only []
+          generalize hr1 : isPathValid cfg useStart st.ar.size (addMotion cfg st (mkConnect cm existing id useStart)) = r1
+          generalize hr2 : isPathValid cfg (!useStart) co r1.2 = r2
+          have g1 : r1.2.ar = (isPathValid cfg useStart st.ar.size (addMotion cfg st (mkConnect cm existing id useStart))).2.ar := by
+            rw [hr1]
+          have g2 : r2.2.ar = (isPathValid cfg (!useStart) co (isPathValid cfg useStart st.ar.size
+              (addMotion cfg st (mkConnect cm existing id useStart))).2).2.ar := by
+            rw [← hr2, ← hr1]
+          generalize hpv : cfg.pairValid (if useStart = true then existing.root else cm.root)
+            (if useStart = true then cm.root else existing.root) = pv
+          cases pv with
+          | false => exact Or.inl rfl
+          | true =>
+            rw [if_pos rfl]
+            cases h5 : r1.1 with
+            | false => exact Or.inr ⟨co, cm, h4, Or.inl g1⟩
+            | true =>
+              rw [if_pos rfl]
+              cases h6 : r2.1 with
+              | false => exact Or.inr ⟨co, cm, h4, Or.inr g2⟩
+              | true => exact Or.inr ⟨co, cm, h4, Or.inr g2⟩
 
 theorem tryConnect_inv {cfg : Cfg S α} {starts : Array S} {st : St S α} (h : ArInv cfg starts st.ar) (useStart : Bool)
     (id : Nat) (hid : ∃ m, st.ar[id]? = some m) (existing : Motion S) (x : S) (dr : Draw S α) (info : Info) :
